@@ -405,6 +405,23 @@ func parseOwnership(rep *Report, prop string) {
 	for i, t := range texts {
 		want[i], _ = safeParse(t)
 	}
+	// texts never parsed before in this process: the tree of the very FIRST parse is the one the caller edits
+	for k := 0; k < 3; k++ {
+		t := fmt.Sprintf(`fresh_%s_%d = $1 & z = "q" ; g`, strings.ToLower(prop), k)
+		first, pq := safeParse(t)
+		if pq == nil {
+			continue
+		}
+		pq.GroupBy = append(pq.GroupBy, "edited_by_caller")
+		pq.Id = 77
+		_ = queryparser_Walk(pq)
+		again, _ := safeParse(t)
+		rep.Count("reparse-after-caller-edit")
+		if again != first {
+			rep.Violate(Violation{Kind: "history", Signature: prop + ":reparse-differs", What: fmt.Sprintf("the text %q parsed again after the caller edited the tree its FIRST parse returned", t), Expected: trunc(first, 300), Actual: trunc(again, 300), Case: map[string]any{"text": t, "scenario": "caller edits the first parse's tree"}})
+			break
+		}
+	}
 	for i, t := range texts {
 		if pq, err := verifhook.ParseQuery(t); err == nil {
 			pq.GroupBy = append(pq.GroupBy, "edited_by_caller")
